@@ -52,6 +52,62 @@ func c03Writer(args []string) int {
 	n := 0
 	var lastPut hash.Hash
 	havePut := false
+	if shape == "huge" {
+		// (1) a commit with > 16384 novel chunks (flushes a journal index record), (2) a second ordinary commit or not,
+		// (3) > 64 MB of chunk records without a commit (forces the intermediate sync that re-commits the current
+		// root), (4) optionally a final commit. Crash points after (3) must still show the last acknowledged root.
+		commit := func(nr hash.Hash) bool {
+			n++
+			mark(fmt.Sprintf("BEGIN %d %s", n, nr))
+			ok, err := st.Commit(bg, nr, root)
+			if err != nil || !ok {
+				mark(fmt.Sprintf("ERR %d %s", n, nr))
+				fmt.Fprintln(os.Stderr, "commit:", ok, err)
+				return false
+			}
+			root = nr
+			mark(fmt.Sprintf("ACK %d %s", n, nr))
+			return true
+		}
+		put := func(body []byte, refs []hash.Hash) hash.Hash {
+			ch := chunks.NewChunk(oracle.EncodeChunkData(refs, body))
+			if err := st.Put(bg, ch, oracle.GetAddrsCurry); err != nil {
+				fmt.Fprintln(os.Stderr, "put:", err)
+				os.Exit(1)
+			}
+			return ch.Hash()
+		}
+		// an ordinary small commit first, so that the store has a non-empty root before the index-flushing commit
+		commit(put([]byte(fmt.Sprintf("pre-%d", seed)), nil))
+		var last hash.Hash
+		for j := 0; j < 16600+r.Intn(800); j++ {
+			b := make([]byte, 8+r.Intn(24))
+			r.Read(b)
+			var refs []hash.Hash
+			if j > 0 && j%97 == 0 {
+				refs = append(refs, last)
+			}
+			last = put(append(b, byte(j), byte(j>>8), byte(j>>16)), refs)
+		}
+		if !commit(last) {
+			return 1
+		}
+		if r.Intn(6) == 0 { // rarely a further ordinary commit, which refreshes every in-memory notion of the root
+			commit(put([]byte(fmt.Sprintf("mid-%d", seed)), []hash.Hash{last}))
+		}
+		big := make([]byte, 2<<20)
+		for j := 0; j < 34+r.Intn(4); j++ {
+			r.Read(big)
+			last = put(big, nil)
+		}
+		mark("BIGDONE 0 " + root.String())
+		if r.Intn(2) == 0 {
+			commit(last)
+		}
+		mark("CLOSE 0 " + root.String())
+		st.Close()
+		return 0
+	}
 	for s := 0; s < steps; s++ {
 		op := r.Intn(10)
 		switch {
